@@ -176,6 +176,7 @@ class HD61202Controller:
             chip.state.start_line = int(chip_meta.get("start_line", 0)) & 0x3F
             chip.state.page = int(chip_meta.get("page", 0)) % pages
             chip.state.y_address = int(chip_meta.get("y_address", 0)) % width
+            chip.state.busy = bool(chip_meta.get("busy", False))
 
             chip.vram = [[0] * width for _ in range(pages)]
             for page in range(pages):
